@@ -159,6 +159,13 @@ def run(tier, seed):
         li.append((sp, {"rule": "TSLACK", "max_time": 20}))
         li.append((sp, {"rule": "TSLACK", "max_time": 20, "absence": [1]}))
     col.merge(stepcheck.explore(li, MONS, 0, 0, seed=seed))
+    # a run that follows an earlier run on the same objects, with a worker's absence list edited in place in between
+    col.merge(stepcheck.explore(stepcheck.edited_items(names=("worker-absence-inplace", "worker-absence-move")), MONS, 0, 0, seed=seed))
+    # project-wide lists in any order and with repeated entries
+    seqs = F.absence_sequences(5, 3)
+    lit2 = [(sp, {"rule": "TSLACK", "auto_abs": aa, "max_time": 24, "absence": list(s)}) for sp in F.absence_probe_models() for aa in (False, True)
+            for s in (seqs if tier == "thorough" else [q for q in seqs if len(q) != 2 or q[0] >= q[1]])]
+    col.merge(stepcheck.explore(lit2, MONS, 0, 0, seed=seed))
     di = diff_items(tier)
     col.merge(engines.fanout(di, work_diff, seed=seed))
     meta = {
@@ -168,7 +175,7 @@ def run(tier, seed):
         "progress iff flag, absent resource contributes nothing; (differential) every absence list that is a subset (size <= bound) of steps 0..makespan+1 plus indices far beyond the end, "
         "on all 2-task workflows (4 kinds) and FS/SS/FF 3-task workflows without component-bound automatic tasks, flag off: logs after simulate(absence=L); remove_absence_time_list() must equal "
         "the logs of simulate(absence=[]); non-trivial = distinct project-absence states / distinct in-range absence lists",
-        "bounds": {"H": H, "D": D, "monitor_models": len(mi), "literal_list_runs(unsorted/repeated/beyond-end)": len(li), "differential_models": len(di)},
+        "bounds": {"H": H, "D": D, "monitor_models": len(mi), "literal_list_runs(unsorted/repeated/beyond-end)": len(li) + len(lit2), "differential_models": len(di)},
         "assumptions": ["differential compares every log, time, costs and status (not live scratch state) and is claimed with the auto flag off"],
     }
     if col.checks["c10.absence-step"] == 0 or col.checks["c10.differential"] == 0:
